@@ -86,9 +86,76 @@ FIXED = [
      "bodies": {"0": [["now", 1], ["now", 2]]}, "ticks": [], "pri": [0, 2, 1]},
 ]
 
+# ---- oracle-only families (outside the vocabulary of Core/EventLoop.v): EventLoopScheduler.schedule_periodic (the
+# class's own override: disposed pre-check, then the generic self-rescheduling closure of PeriodicScheduler, whose
+# ticks are ordinary timed items of the loop), actions that raise, scheduling threads that wait for the clock
+PFIXED = [
+    # three ticks, stopped by the last tick itself
+    {"eie": False, "t0": 0, "progs": [[["periodic", 1000, 1]]], "bodies": {}, "ticks": [],
+     "pspec": {"1": {"fn": "count", "st0": 0, "max": 3}}},
+    # exit_if_empty, float period, a None in the state chain, stopped from another thread between two ticks
+    {"eie": True, "t0": 0, "progs": [[["periodic", 1000, 1]], [["sleep", 1500], ["cancel", 1]]], "bodies": {},
+     "ticks": [500], "pspec": {"1": {"fn": "jump", "st0": 0, "max": 4, "as": "float"}}},
+    # dispose() of the scheduler while the subscription is alive; schedule_periodic afterwards must raise
+    {"eie": False, "t0": 0, "progs": [[["periodic", 1000, 1], ["sleep", 2500], ["dispose"], ["periodic", 1000, 2]]],
+     "bodies": {}, "ticks": [], "pspec": {"1": {"fn": "count", "st0": 0, "max": 9},
+                                          "2": {"fn": "count", "st0": 0, "max": 2}}},
+    # dispose() racing schedule_periodic and a running tick
+    {"eie": False, "t0": 0, "progs": [[["periodic", 1000, 1]], [["sleep", 1000], ["dispose"], ["periodic", 500, 2]]],
+     "bodies": {}, "ticks": [1000], "pspec": {"1": {"fn": "count", "st0": 0, "max": 3},
+                                              "2": {"fn": "same", "st0": 4, "max": 2}}},
+    # ticks interleaved with one-shot items (serial, one thread), a tick that schedules and one that takes time
+    {"eie": False, "t0": 0, "progs": [[["periodic", 1000, 1], ["rel", 1000, 5], ["now", 6]], [["abs", 2000, 7]]],
+     "bodies": {"5": [["now", 8]]}, "ticks": [1000],
+     "pspec": {"1": {"fn": "cycle3", "st0": 0, "max": 3, "durs": [0, 1500, 0], "bodies": {"0": [["rel", 500, 9]]}}}},
+    # a periodic subscription made by an action on the loop thread, cancelled by a later action
+    {"eie": True, "t0": 0, "progs": [[["now", 1], ["rel", 2500, 2]]], "bodies": {"1": [["periodic", 1000, 3]],
+                                                                             "2": [["cancel", 3]]},
+     "ticks": [], "pspec": {"3": {"fn": "count", "st0": 0, "max": 6}}},
+    # reactivex.interval on the scheduler: through the factory argument and through subscribe(scheduler=)
+    {"eie": False, "t0": 0, "progs": [[["periodic", 1000, 1]]], "bodies": {}, "ticks": [],
+     "pspec": {"1": {"via": "interval_factory", "max": 3}}},
+    {"eie": True, "t0": 5000, "progs": [[["periodic", 2000, 1]], [["now", 2]]], "bodies": {}, "ticks": [1000],
+     "pspec": {"1": {"via": "interval_subscribe", "max": 2, "as": "float"}}},
+    # a tick raises: the subscription stops (the loop thread dies with it -- coverage only, see DESIGN)
+    {"eie": False, "t0": 0, "progs": [[["periodic", 1000, 1], ["now", 5]]], "bodies": {}, "ticks": [],
+     "pspec": {"1": {"fn": "count", "st0": 0, "max": 5, "raise_at": 1}}},
+    # an action raises: coverage only (nothing the statement says is contradicted by what still runs)
+    {"eie": False, "t0": 0, "progs": [[["now", 1], ["now", 2]], [["rel", 1000, 4]]], "bodies": {"1": [["rel", 1000, 3]]},
+     "ticks": [1000], "raises": [1]},
+    {"eie": True, "t0": 0, "progs": [[["rel", 1000, 1], ["now", 2]], [["now", 3], ["cancel", 3]]], "bodies": {},
+     "ticks": [1000], "raises": [2]},
+    # bodies three deep, two calls each
+    {"eie": False, "t0": 0, "progs": [[["now", 1]], [["rel", 1000, 9]]],
+     "bodies": {"1": [["now", 2], ["rel", 1000, 3]], "2": [["now", 4], ["cancel", 3]], "4": [["abs", 500, 5], ["now", 6]]},
+     "ticks": [1000]},
+]
+
+
+def oracle_only(case):
+    """outside the vocabulary of the model"""
+    return bool(case.get("pspec") or case.get("raises")
+                or any(op[0] in ("periodic", "sleep") for op in E.all_ops(case)))
+
+
+def gen_periodic(rng, labels, t0):
+    """-> (ops of a new scheduling thread, pspec entry, label)"""
+    a = next(labels)
+    p = rng.choice([500, 1000, 1000, 2000, 15625])
+    via = rng.choice(["direct", "direct", "direct", "interval_factory", "interval_subscribe"])
+    fn = rng.choice(["count", "cycle3", "jump", "none", "same"]) if via == "direct" else "count"
+    from ntpdrv import ST0
+    spec = {"fn": fn, "st0": ST0[fn] if via == "direct" else 0, "max": rng.choice([2, 3, 3, 4]),
+            "as": rng.choice(["timedelta", "float"]), "via": via}
+    if rng.random() < 0.3:
+        spec["durs"] = [rng.choice([0, p // 2, p, p + p // 2]) for _ in range(3)]
+    if via == "direct" and rng.random() < 0.2:
+        spec["raise_at"] = rng.randrange(spec["max"])
+    return a, p, spec
+
 
 def gen_case(rng):
-    labels = iter(range(1, 60))
+    labels = iter(range(1, 90))
     t0 = rng.choice([0, 5000])
     scheduled = []
 
@@ -116,17 +183,27 @@ def gen_case(rng):
             p.append(op)
         progs.append(p)
     bodies = {}
-    for a in list(scheduled):
-        if rng.random() < 0.25:
+    # action bodies: one or two calls, nested up to three deep (an action scheduled from a body may have a body)
+    depth = {a: 0 for a in scheduled}
+    work = list(scheduled)
+    while work:
+        a = work.pop(0)
+        if depth[a] >= 3 or rng.random() >= (0.25 if depth[a] == 0 else 0.5):
+            continue
+        ops = []
+        for _ in range(rng.choice([1, 1, 2])):
             x = rng.random()
             if x < 0.7:
                 op = sched_op()
                 scheduled.append(op[-1])
+                depth[op[-1]] = depth[a] + 1
+                work.append(op[-1])
             elif x < 0.85:
-                op = ["cancel", a]
+                op = ["cancel", rng.choice([a] + [b for b in scheduled if b != a][:3])]
             else:
                 op = ["dispose"]
-            bodies[str(a)] = [op]
+            ops.append(op)
+        bodies[str(a)] = ops
     ticks = [rng.choice([500, 1000, 1000, 2000]) for _ in range(rng.choice([0, 0, 1, 2]))]
     if rng.random() < 0.35:
         # a batch: 2-3 items that become due in the same cycle (submitted by one action from the loop thread, or
@@ -155,7 +232,48 @@ def gen_case(rng):
             bodies[str(batch[i])] = [["cancel", victim]]
         if x > 0.5:
             progs.append([["cancel", rng.choice(batch[1:])]])
-    return {"eie": rng.random() < 0.4, "t0": t0, "progs": progs, "bodies": bodies, "ticks": ticks}
+    case = {"eie": rng.random() < 0.4, "t0": t0, "progs": progs, "bodies": bodies, "ticks": ticks}
+    # representation of the due times and the scheduler the bodies call: no change of meaning (same model input)
+    if rng.random() < 0.3:
+        case["repr"] = "float"
+    if rng.random() < 0.3:
+        case["body_sched"] = "arg"
+    x = rng.random()
+    if x < 0.22:
+        # EventLoopScheduler.schedule_periodic next to the ordinary items; stopped by its last tick, by another
+        # thread / an action, or by dispose() of the scheduler
+        a, p, spec = gen_periodic(rng, labels, t0)
+        case["pspec"] = {str(a): spec}
+        host = rng.random()
+        if host < 0.6 or not scheduled:
+            prog = [["periodic", p, a]]
+            if rng.random() < 0.5:
+                prog += [["sleep", rng.choice([p // 2, p, p + p // 2, 2 * p + 1])], ["cancel", a]]
+            progs.append(prog)
+        else:
+            b = rng.choice(scheduled)
+            bodies.setdefault(str(b), []).append(["periodic", p, a])
+            if rng.random() < 0.4:
+                progs.append([["sleep", rng.choice([p, 2 * p + 1])], ["cancel", a]])
+        if rng.random() < 0.25:
+            spec.setdefault("bodies", {})[str(rng.randrange(spec["max"]))] = [sched_op()]
+    elif x < 0.32 and scheduled:
+        case["raises"] = [rng.choice(scheduled)]
+    return case
+
+
+def body_depth(case):
+    bodies = case.get("bodies", {})
+    top = {op[-1] for p in case["progs"] for op in p if op[0] in ("now", "rel", "abs")}
+
+    def d(a, seen=()):
+        if a in seen:
+            return 0
+        ops = bodies.get(str(a))
+        if not ops:
+            return 0
+        return 1 + max([d(op[-1], seen + (a,)) for op in ops if op[0] in ("now", "rel", "abs")] or [0])
+    return max([d(a) for a in top] or [0])
 
 
 def case_size(case, sched):
@@ -215,7 +333,7 @@ def run(chk):
     if not ok_st:
         chk.tie_broken("k3_time self-test failed", st_facts)
     bound = 2 if quick else 3
-    cases = list(FIXED) + [gen_case(chk.rng) for _ in range(40 if quick else 400)]
+    cases = list(FIXED) + list(PFIXED) + [gen_case(chk.rng) for _ in range(40 if quick else 400)]
     coq_cases, coq_meta = [], []
     hist = {"coarse": 0, "fine": 0, "random": 0}
     distinct = set()
@@ -227,11 +345,24 @@ def run(chk):
     notes = {}
     per_case_limit = 12 if quick else 400
     fixed_limit = 60 if quick else 3000
+    pfixed_limit = 24 if quick else 1500
+    fam = {}
 
     def judge(case, r, fine, sched):
         nonlocal evals
         evals += 1
         bad = E.oracle(case, r)
+        if case.get("pspec"):
+            # the clauses this property makes about timed actions, for the ticks of schedule_periodic (the full
+            # statement about periodic scheduling -- state threading, keeps going -- is judged by C35 on the same driver)
+            bad = bad + E.periodic_oracle(case, r, "eventloop", pid="C31", full=False)
+            nt = sum(1 for e in r.log if e[2] == "pstart")
+            fam["periodic_ticks"] = fam.get("periodic_ticks", 0) + nt
+            fam["periodic_runs_with_two_or_more_ticks"] = fam.get("periodic_runs_with_two_or_more_ticks", 0) + (nt >= 2)
+            fam["schedule_periodic_raised_DisposedException"] = fam.get("schedule_periodic_raised_DisposedException", 0) \
+                + sum(1 for e in r.log if e[2] == "raise" and str(e[3]) in case["pspec"])
+        if any(e[2] in ("araise", "praise") for e in r.log):
+            fam["runs_in_which_an_action_raised"] = fam.get("runs_in_which_an_action_raised", 0) + 1
         h = hashlib.sha1(json.dumps([case, r.log], default=str).encode()).hexdigest()
         distinct.add(h)
         if any(e[2] == "start" for e in r.log) and k3.preemptions(r.trace) > 0:
@@ -267,6 +398,9 @@ def run(chk):
     def to_coq(case, r, sched):
         if r.error:
             return
+        if oracle_only(case):
+            hist["oracle_only_periodic_raising_or_sleeping"] = hist.get("oracle_only_periodic_raising_or_sleeping", 0) + 1
+            return
         if not in_vocabulary(r.log):
             hist["oracle_only_cancel_before_the_schedule_returned"] = \
                 hist.get("oracle_only_cancel_before_the_schedule_returned", 0) + 1
@@ -295,7 +429,7 @@ def run(chk):
             if time.time() - t_start > t_budget:
                 chk.notes.append(f"time budget reached after {ci} of {len(cases)} cases")
                 break
-            lim = fixed_limit if ci < len(FIXED) else per_case_limit
+            lim = fixed_limit if ci < len(FIXED) else pfixed_limit if ci < len(FIXED) + len(PFIXED) else per_case_limit
             box = {}
 
             def once(chooser, fine):
@@ -353,8 +487,16 @@ def run(chk):
     chk.cov["evaluations"] = evals
     chk.cov["distinct_nontrivial"] = len(nontrivial)
     chk.cov["rule"] = ("a case = exit_if_empty flag, 1-3 scheduling threads with 1-3 calls each "
-                       "(schedule/relative/absolute/cancel/dispose), optional action bodies (one call, or an action "
-                       "that submits 2-3 items which are then gathered in one cycle), optionally a batch of 2-3 items due in "
+                       "(schedule/relative/absolute/cancel/dispose), optional action bodies (one or two calls, nested up "
+                       "to three deep, or an action "
+                       "that submits 2-3 items which are then gathered in one cycle), due times handed over as "
+                       "timedelta/datetime or as float seconds / POSIX timestamps, body calls made on the scheduler or on "
+                       "the `scheduler` argument of the action; ORACLE-ONLY families: EventLoopScheduler.schedule_periodic "
+                       "(direct, or reactivex.interval with the scheduler given to the factory / to subscribe; timedelta "
+                       "and float periods; ticks that take clock time, schedule, raise; stopped by the last tick itself, "
+                       "by a thread that waits for the clock, by an action, by dispose() of the scheduler; "
+                       "schedule_periodic after dispose()), and actions that raise (coverage only: liveness is not "
+                       "judged in a run in which an action raised); optionally a batch of 2-3 items due in "
                        "the same cycle with a later one disposed by an earlier one and/or by a scheduling thread, a clock "
                        "thread; every case is run under all schedules with <= %d preemptions (coarse, capped "
                        "per case), seeded random schedules, and fine-grained schedules; distinct = distinct "
@@ -364,12 +506,22 @@ def run(chk):
                                          exit_if_empty=sum(1 for c in cases if c["eie"]),
                                          with_dispose=sum(1 for c in cases if "dispose" in json.dumps(c)),
                                          with_bodies=sum(1 for c in cases if c["bodies"]),
+                                         with_bodies_two_or_more_deep=sum(1 for c in cases if body_depth(c) >= 2),
+                                         with_schedule_periodic=sum(1 for c in cases if c.get("pspec")),
+                                         with_interval_on_the_scheduler=sum(
+                                             1 for c in cases for sp in c.get("pspec", {}).values()
+                                             if sp.get("via", "direct") != "direct"),
+                                         with_raising_action=sum(1 for c in cases if c.get("raises")),
+                                         due_times_as_float=sum(1 for c in cases if c.get("repr") == "float"),
+                                         body_calls_on_the_scheduler_argument=sum(
+                                             1 for c in cases if c.get("body_sched") == "arg"),
                                          with_clock_thread=sum(1 for c in cases if c["ticks"]))
     chk.cov["traces_validated_against_impl"] = len(coq_cases)
     chk.cov["disagreements_checked"] = len([b for b in bad if b >= 0])
     chk.cov["dispatch_window_hits_by_what_happened_in_the_window"] = windows
     chk.cov["distinct_logs_with_a_same_batch_dispose_before_the_victims_test"] = len(same_cycle)
     chk.cov["observations_outside_the_property"] = notes
+    chk.cov["oracle_only_families"] = fam
     chk.cov["k3_time_self_test"] = "ok" if ok_st else "FAILED"
     chk.cov["atomicity_structure"] = "as assumed by the model" if not diffs else "DIFFERS"
     chk.add_samples(samples)
@@ -384,7 +536,14 @@ def run(chk):
         assumptions=[
             "preemption only at the yield points of the chosen granularity (coarse = the model's steps; fine = "
             "every source line of EventLoopScheduler's methods, every lock operation, every clock read)",
-            "actions do not raise; the disposable an action returns is ignored",
+            "the disposable an action returns is ignored; an action that raises kills the loop thread (run() has no "
+            "handler) while _thread stays set, so everything accepted afterwards is never run: the statement is silent "
+            "about raising actions, such runs are explored for coverage and judged on the safety clauses only (thread "
+            "identity, overlap, order, not-early, cancelled, disposed) -- nothing is demanded about what no longer runs",
+            "schedule_periodic: ticks are judged here on the clauses about timed actions (loop thread, serial, not "
+            "before one period after the call / the previous tick, not after a dispose() of the returned disposable "
+            "that returned before the tick could be due, DisposedException after dispose()); a DisposedException "
+            "raised inside the loop thread by the re-scheduling call of a tick after dispose() is accepted",
             "'cancelled before it starts' is read strictly by the oracle (known finding for the dispatch window) "
             "and as 'before the loop thread's is_cancelled() test' by the theorem"])
 
@@ -395,6 +554,8 @@ def replay(chk, path):
     with E.rebound():
         r = E.run_case(case, k3.follow(sched, lenient=True), fine=fine)
     bad = E.oracle(case, r)
+    if case.get("pspec"):
+        bad = bad + E.periodic_oracle(case, r, "eventloop", pid="C31", full=False)
     print(json.dumps({"case": case, "schedule_followed": r.schedule, "log": [list(map(str, e)) for e in r.log],
                       "oracle": bad}, indent=1))
     for sig, msg in bad:
